@@ -75,6 +75,7 @@ theorem SRel.ofWF {Q : QRel} (hq : QRefl Q) {σ : State N} (h : State.WF σ) : S
   strlib := ⟨rfl, h.strlib⟩
   front := ⟨Nat.zero_le _, Nat.zero_le _, Nat.zero_le _, Nat.zero_le _, Nat.zero_le _, Nat.zero_le _⟩
   pin := fun _ hp => by cases hp
+  pinR := fun _ hp => by cases hp
 
 theorem inRange_libTable (σ : State N) (pre : String) (names : List String) :
     ∀ p ∈ (libTable (N := N) pre names).entries, Val.inRange σ p.1 ∧ Val.inRange σ p.2 := by
